@@ -82,6 +82,7 @@ pub struct Prog {
 
 #[derive(Clone, Debug, Default)]
 pub struct Rendered {
+    pub crlf: bool,
     /// item address -> byte offset of the item's first byte in its file
     pub pos: std::collections::HashMap<usize, usize>,
     pub files: Vec<(String, String)>,
@@ -307,16 +308,31 @@ pub fn render(p: &Prog, r: &mut Rng) -> Rendered {
 }
 
 pub fn render_opt(p: &Prog, r: &mut Rng, comment_seps: bool) -> Rendered {
+    let crlf = r.chance(1, 8);
     let mut rd = Rendered::default();
+    rd.crlf = crlf;
     for f in &p.files {
         let mut s = String::new();
         let mut lines = Vec::new();
         let mut rr = Renderer::new(r);
         rr.comment_seps = comment_seps;
         rr.items(&f.items, &mut s, &mut lines);
-        let pos = std::mem::take(&mut rr.pos);
+        let mut pos = std::mem::take(&mut rr.pos);
+        if f.items.is_empty() {
+            // a zero-byte file
+        } else if !s.ends_with('\n') {
+            s.push('\n');
+        }
+        if crlf {
+            // CR LF line endings throughout (item offsets shift by the number of line breaks before them)
+            let nl: Vec<usize> = s.bytes().enumerate().filter(|(_, b)| *b == b'\n').map(|(i, _)| i).collect();
+            for v in pos.values_mut() {
+                *v += nl.partition_point(|x| *x < *v);
+            }
+            s = s.replace('\n', "\r\n");
+        }
         rd.pos.extend(pos);
-        if !s.ends_with('\n') {
+        if false {
             s.push('\n');
         }
         rd.files.push((f.name.clone(), s));
@@ -507,6 +523,14 @@ impl<'a> Eval<'a> {
 
     /// tokens of a piece of source text copied verbatim from `fi` at `off`
     fn emit_src(&mut self, text: &str, fi: usize, off: usize) {
+        // offsets inside a multi-line item (a `define with continuation lines) follow the file's line endings
+        let conv;
+        let text = if self.rendered.crlf && text.contains('\n') {
+            conv = text.replace('\n', "\r\n");
+            conv.as_str()
+        } else {
+            text
+        };
         let (toks, _) = lexer::lex(text);
         for t in toks {
             if lexer::is_trivia(t.k) {
@@ -1263,7 +1287,8 @@ impl<'r> MultiGen<'r> {
                     self.g.r.pick(&self.files).name.clone()
                 } else {
                     let name = format!("inc{}.svh", self.files.len() + 1 + depth * 10 + self.g.r.below(1000) * 100);
-                    let sub = self.file_items(depth + 1, 5);
+                    // now and then a zero-byte file
+                    let sub = if self.g.r.chance(1, 10) { Vec::new() } else { self.file_items(depth + 1, 5) };
                     self.files.push(FileSrc { name: name.clone(), items: sub });
                     name
                 };
